@@ -72,8 +72,9 @@ ASSUMPTIONS = [
     "restored objects are fed the recorded continuation (same calls, same arguments); comparison stops at the first "
     "difference of a restore point",
     "snapshots are taken at vtuner step boundaries (between tuner loop iterations), not between suggest and on_trial_add",
-    "the global numpy RNG state is treated as environment: saved with each snapshot and restored before the restored "
-    "copy continues (MOASHA samples configurations and brackets from it)",
+    "process-global generators: only MOASHA (which has no generator of its own) gets NumPy's global state saved with each "
+    "snapshot and put back before the restored copy continues; for every other kind the restored copy / the clone "
+    "continues with numpy.random and random re-seeded to unrelated values (as after Tuner.load in a new process)",
     "elapsed_time passed by FIFOScheduler to searcher.get_config is wall clock; it is stripped from recorded searcher "
     "calls and replayed as 0.0 (no searcher under test reads it)",
     "clone_from_state: the clone gets configure_scheduler(scheduler) before use iff the snapshotted searcher had been "
@@ -131,8 +132,8 @@ def cases(tier, seed):
         # workload patterns and documented non-default search options are enumerated over the pairs, not drawn
         j = i // 2
         sp["variant"] = j
-        pat = (["plain", "early_fail", "transfer", "transfer", "rc", "early_fail", "transfer", "plain"] if i % 2 == 0 else
-               ["plain", "early_complete", "transfer", "early_fail", "early_complete", "rc", "transfer", "early_complete"])[j % 8]
+        pat = (["plain", "early_fail", "transfer", "rc", "rc", "early_fail", "transfer", "rc"] if i % 2 == 0 else
+               ["plain", "early_complete", "transfer", "early_fail", "early_complete", "rc", "transfer", "rc"])[j % 8]
         if pat != "plain":
             sp[pat] = True
         out.append(sp)
@@ -201,10 +202,14 @@ def floors(tier):
         f[f"rp_k0:gpclone:{kind}"] = 3 * k
     f["rp_paused:gpclone:gp_mf"] = 20 * k
     kk = 1 if tier == "quick" else 8
-    for name, n in (("transfer_learning", 30), ("early_complete_before_first_rung", 20), ("early_fail", 15),
-                    ("allow_duplicates", 30), ("restrict_configurations", 8), ("opt_skip_period", 50),
+    for name, n in (("transfer_learning", 30), ("early_complete_before_first_rung", 15), ("early_fail", 15),
+                    ("allow_duplicates", 30), ("restrict_configurations", 30), ("opt_skip_period", 50),
                     ("opt_skip_init_length", 50), ("no_fantasizing", 5)):
         f[f"rp_with_option:{name}"] = n * kk
+    f["rp_in_initial_random_phase_with_restrict_configurations"] = 30 * kk
+    f["rp_in_initial_random_phase_with_restrict_configurations_after_a_random_draw"] = 15 * kk
+    f["rp_dill_with_brackets_gt1"] = 500 * k
+    f["continuations_under_perturbed_global_rng"] = 3000 * k
     f["rp_with_cached_gaussian"] = 10 * kk
     f["rp_with_odd_num_init_candidates"] = 60 * kk
     f["rp_initial_scoring:thompson_indep"] = 100 * kk
@@ -237,7 +242,7 @@ def _hb_params(rng, typ):
             k = rng.randint(2, min(4, max_t))
             p["rung_levels"] = sorted(rng.sample(range(1, max_t + 1), k))
             p["max_t"] = max_t
-        p["brackets"] = rng.choice([1, 1, 2, 3])
+        p["brackets"] = rng.choice([1, 2, 2, 3, 4])
         p["rung_system_per_bracket"] = rng.random() < 0.5
         lv = gen.ref_rung_levels(p)
         if typ == "pasha":
@@ -489,6 +494,16 @@ def expand(spec):
             if v % 3 == 1:
                 p["gp"]["allow_duplicates"] = True
             p["rc"] = bool(spec.get("rc"))
+            if p["rc"]:
+                # restrict_configurations: a long initial random phase (entries are popped off the list by the internal
+                # random searcher), list sizes 5-30, with and without points_to_evaluate; restore points inside that phase
+                p["gp"]["num_init_random"] = rng.randint(3, 6)
+                p["gp"].pop("allow_duplicates", None)
+                p["rc_n"] = rng.randint(5, 30)
+                p["points"] = rng.choice(["none", "default", "explicit"])
+                p["max_trials"] = max(p["max_trials"], p["gp"]["num_init_random"] + 3)
+                p["n_workers"] = rng.randint(1, 3)
+                p["fail_rate"] = rng.choice([0.0, 0.0, 0.15])
         if spec.get("transfer"):
             # documented transfer-HPO set-up: categorical task attribute, active task, observations of OTHER tasks
             # already in the searcher's state; the active task starts with fewer than num_init_random configs
@@ -599,6 +614,9 @@ def build(p, seed):
             so["restrict_configurations"] = _restrict_configs(p, seed + 5)
             so["skip_local_optimization"] = True
             so["initial_scoring"] = "acq_func"
+            if p["points"] == "explicit":
+                # initial points that survive the filter: entries of the list itself
+                pts = [dict(c) for c in so["restrict_configurations"][: 1 + seed % 2]]
         searcher = "hypertune" if kind == "gp_hypertune" else "bayesopt"
         tr = p.get("transfer_cfg")
         if tr:
@@ -1104,8 +1122,16 @@ def _judge_restore_point(o, p, fac, kind, log1, s, restore_fn, np, replay_fn=Non
         o.count(f"set_iteration_order_changed_by_round_trip:{fac}")
 
     def attempt(R_):
-        saved = np.random.get_state()
-        np.random.set_state(s["nprs"])
+        saved, saved_py = np.random.get_state(), random.getstate()
+        if kind == "moasha":
+            # MOASHA documents no generator of its own: it samples from NumPy's global one, which is environment
+            np.random.set_state(s["nprs"])
+        else:
+            # as after Tuner.load in a new process: the process-global generators are in an unrelated state; anything
+            # a scheduler draws from them (instead of from its own, serialised, generator) shows as a divergence
+            np.random.seed((p["_seed"] * 7919 + 104729 * (k + 1)) % (2**32))
+            random.seed(p["_seed"] * 31 + k + 1)
+            o.count("continuations_under_perturbed_global_rng")
         try:
             ns = nd = 0
             for j in range(idx, len(log1)):
@@ -1120,6 +1146,7 @@ def _judge_restore_point(o, p, fac, kind, log1, s, restore_fn, np, replay_fn=Non
             return None, ns, nd
         finally:
             np.random.set_state(saved)
+            random.setstate(saved_py)
 
     bad, n_sugg, n_dec = attempt(R)
     if bad is not None and gp:
@@ -1160,6 +1187,9 @@ def _judge_restore_point(o, p, fac, kind, log1, s, restore_fn, np, replay_fn=Non
         o.count(f"rp_pending:{fac}")
     if s.get("failed"):
         o.count(f"rp_after_failure:{fac}")
+    if (p.get("type") is not None and (p.get("brackets") or 1) > 1) or kind == "gp_hypertune":
+        o.count("rp_dill_with_brackets_gt1")
+        o.count(f"rp_dill_with_brackets_gt1:{kind}")
     if bad is not None:
         j, got, exp = bad
         what = _classify(log1, j, got, exp)
@@ -1372,6 +1402,9 @@ def run_clone(spec, o):
                 continue
         bad = None
         n_cfg = 0
+        np.random.seed((seed * 7919 + 104729 * (s["k"] + 1)) % (2**32))
+        random.seed(seed * 31 + s["k"] + 1)
+        o.count("continuations_under_perturbed_global_rng")
         for j in range(idx, len(slog1)):
             name, args, exp = slog1[j]
             got = _searcher_call(clone, tmpl_sched, name, args)
@@ -1437,7 +1470,7 @@ def _child_p1(req):
     port = RecPort(sched)
     vt = OrderVTuner(port, vtuner_params(p, seed, p.get("order")), value_fn, extra_fn)
     nir = (p.get("gp") or {}).get("num_init_random", 3)
-    seen_model_based, below, transfer_below, gauss, step = False, [], [], [], 0
+    seen_model_based, below, transfer_below, gauss, random_phase, step = False, [], [], [], [], 0
     while vt.n_events < vt.p["max_events"]:
         pr = _phase_probe(sched.searcher)
         try:
@@ -1452,11 +1485,14 @@ def _child_p1(req):
                 below.append(step)
             if p.get("transfer_cfg") and pr[0] < nir <= pr[1]:
                 transfer_below.append(step)
+            if pr[0] < nir and len(vt.trials) >= 1 and not seen_model_based:
+                random_phase.append(step)
         if not vt.step():
             break
         step += 1
     return {"log": _jlog(port.log), "order": list(vt.actions), "events": _jlog(vt.events), "raised": _jlog(vt.raised),
-            "below_steps": below, "transfer_below_steps": transfer_below, "cached_gaussian_steps": gauss}
+            "below_steps": below, "transfer_below_steps": transfer_below, "cached_gaussian_steps": gauss,
+            "random_phase_steps": random_phase}
 
 
 def _params_diag(saved, now):
@@ -1538,6 +1574,10 @@ def _restore_in_scheduler(sched, info, p=None, seed=None):
         info["stage"] = "configure_scheduler"
         clone.configure_scheduler(sched)
     info["stage"] = "done"
+    if seed is not None:
+        np.random.seed((seed * 7919 + 104729 * (info.get("k", 0) + 1)) % (2**32))
+        random.seed(seed * 31 + info.get("k", 0) + 1)
+        info["perturbed_global_rng"] = True
     try:
         info["params"] = _params_diag(state["model_params"], clone.model_parameters())
     except Exception:  # noqa: BLE001
@@ -1622,6 +1662,11 @@ def _gp_options(p):
     return out
 
 
+def _n_initial_points(p, seed):
+    pts = _points(random.Random(seed % (2**31 - 1) + 77), p["space"], p["points"])
+    return 1 if pts is None else len(pts)
+
+
 def _phase_probe(searcher):
     """Read-only (reach counters only): how many configs of the active task / of all tasks the searcher knows
     (observed, pending, failed), and whether it has observations."""
@@ -1656,6 +1701,8 @@ def _run_to_k_then(p, seed, order, k, action):
             info["paused"] = sum(1 for t in vt.trials.values() if t.status == "paused")
             info["running"] = len(vt.running)
             if pr is not None:
+                info["in_random_phase"] = bool(pr[0] < nir and not seen_model_based and len(vt.trials) >= 1)
+                info["after_random_draw"] = bool(len(vt.trials) > _n_initial_points(p, seed))
                 info["below_nir_after_model_based"] = bool(seen_model_based and pr[0] < nir)
                 info["transfer_active_below_nir"] = bool(p.get("transfer_cfg") and pr[0] < nir <= pr[1])
             try:
@@ -1796,6 +1843,8 @@ def run_gpclone(spec, o):
         # boundaries where the searcher has fallen below num_init_random again / the active task is still below it
         points |= set([k for k in r1.get("below_steps", []) if k < n_steps][:6])
         points |= set([k for k in r1.get("transfer_below_steps", []) if k < n_steps][:4])
+        if p.get("rc"):
+            points |= set([k for k in r1.get("random_phase_steps", []) if k < n_steps][:12])
         cg = [k for k in r1.get("cached_gaussian_steps", []) if k < n_steps]
         points |= set(cg[:2] + cg[-3:])  # boundaries at which the searcher's generator holds a cached Gaussian
         rest = [k for k in range(1, n_steps) if k not in points]
@@ -1827,6 +1876,14 @@ def run_gpclone(spec, o):
         d = pt["d"]
         o.count(f"rp:{fac}")
         o.count("decided:random_generator_state_equal")
+        if pt.get("perturbed_global_rng"):
+            o.count("continuations_under_perturbed_global_rng")
+        if pt.get("in_random_phase"):
+            o.count("rp_in_initial_random_phase:gpclone")
+            if p.get("rc"):
+                o.count("rp_in_initial_random_phase_with_restrict_configurations")
+                if pt.get("after_random_draw"):
+                    o.count("rp_in_initial_random_phase_with_restrict_configurations_after_a_random_draw")
         if pt.get("has_gauss"):
             o.count("rp_with_cached_gaussian")
         if (p.get("gp") or {}).get("num_init_candidates", 0) % 2 == 1:
